@@ -177,6 +177,40 @@ Theorem C02_ring_round_delivers :
     length (rh_msgs s') = S (length (rh_msgs s)) /\ dcode (dq_st (rh_d s')) = 0 /\ rh_unread s' = tl.
 Proof. exact ring_round_delivers. Qed.
 
+(* the growth policy of mpt_stream_dispatch (streamRecv: receive; on MissingBuffer enlarge by 64 and
+   receive again) iterated: every attempt that does not deliver consumes at least n - 17 = 47 bytes of
+   the frame (scratch space is paid for by consumed bytes), so a complete frame whose delimiter is
+   [length pre] bytes ahead is delivered after at most length pre / 47 + 1 attempts *)
+Theorem C02_ring_round_progress :
+  forall v s pre tl n fill,
+    rh_inv v s -> rh_stop s = false -> rh_live v s -> rh_unread s = pre ++ 0%N :: tl -> nozero pre = true ->
+    let s' := rh_round v n fill s in
+    rh_inv v s' /\ rh_stop s' = false /\ rh_in s' = rh_in s /\
+    ((length (rh_msgs s') = S (length (rh_msgs s)) /\ dcode (dq_st (rh_d s')) = 0 /\ rh_unread s' = tl) \/
+     (rh_msgs s' = rh_msgs s /\ rh_live v s' /\
+      exists pre2, rh_unread s' = pre2 ++ 0%N :: tl /\ nozero pre2 = true /\ length pre2 + n <= length pre + 17)).
+Proof. exact ring_round_progress. Qed.
+
+Theorem C02_ring_dispatch_policy_delivers :
+  forall v n fill, 18 <= n -> forall k s pre tl,
+    rh_inv v s -> rh_stop s = false -> rh_live v s -> rh_unread s = pre ++ 0%N :: tl -> nozero pre = true ->
+    length pre < (n - 17) * k ->
+    let s' := rh_until v n fill k s in
+    rh_inv v s' /\ rh_stop s' = false /\ rh_in s' = rh_in s /\
+    length (rh_msgs s') = S (length (rh_msgs s)) /\ dcode (dq_st (rh_d s')) = 0 /\ rh_unread s' = tl.
+Proof. exact ring_until_delivers. Qed.
+
+(* non-vacuity: a ZPE frame of 200 zero pairs in a full ring, enlargements by 64 only: the first
+   two attempts fail, the message arrives within eight *)
+Example C02_dispatch_policy_example :
+  let frame := concat (repeat [225; 65]%N 200) ++ [1; 0]%N in
+  let s0 := rh_run v_zpe (rh_init (repeat 238%N 402) 7) [RWire frame] in
+  let s' := rh_until v_zpe 64 238%N 8 s0 in
+  rh_stop s0 = false /\ rh_free s0 = 0 /\
+  rh_msgs (rh_round v_zpe 64 238%N (rh_round v_zpe 64 238%N s0)) = [] /\
+  rh_stop s' = false /\ map (@length byte) (rh_msgs s') = [600] /\ rh_unread s' = [].
+Proof. vm_compute. repeat split; reflexivity. Qed.
+
 Theorem C02_ring_reader_delivers_all :
   forall v ms C s n fill, frames_of v ms C ->
     rh_inv v s -> rh_stop s = false -> dcode (dq_st (rh_d s)) = 0 -> rh_unread s = C -> length C + 17 <= n ->
@@ -303,3 +337,5 @@ Print Assumptions C02_ring_to_ring_all.
 Print Assumptions C02_glue_step_refines.
 Print Assumptions C02_glue_history_safe.
 Print Assumptions C02_queue_recv_no_error_on_stream_prefix.
+Print Assumptions C02_ring_round_progress.
+Print Assumptions C02_ring_dispatch_policy_delivers.
